@@ -44,6 +44,9 @@ func (t *Trie) Insert(word string) {
 			}
 		}
 		t = t.children[char]
+		if i == l-1 && t != endMarker {
+			t.valid = true // word ends on an existing inner node (prefix of a longer word).
+		}
 	}
 }
 
